@@ -141,6 +141,9 @@ func (s *Sbi) validate() (bool, error) {
 		if result, err := tls.validate(); err != nil {
 			return result, err
 		}
+	} else if s.Scheme == "https" {
+		// the server start reads the certificate and key paths for this scheme
+		return false, errors.New("Invalid sbi.tls: required for the https scheme")
 	}
 
 	result, err := govalidator.ValidateStruct(s)
